@@ -10,6 +10,7 @@ import (
 	"fmt"
 	"net/http"
 	"net/http/httptest"
+	"sort"
 	"strings"
 	"testing"
 	"testing/synctest"
@@ -117,7 +118,7 @@ func rootAlphabet() []cid.Cid {
 	return out
 }
 
-var topics = []string{"", "/indexer/ingest/mainnet", "tópico/ユニコード", strings.Repeat("t", 256), strings.Repeat("t", 1000), strings.Repeat("/long-topic", 600)}
+var topics = []string{"", "/indexer/ingest/mainnet", "tópico/ユニコード", strings.Repeat("t", 256), strings.Repeat("t", 1000), strings.Repeat("/long-topic", 600), "/indexer/ingest/", "/", " padded topic ", "UPPER/lower"}
 
 // headServer serves a body verbatim as the head.
 type headServer struct {
@@ -145,7 +146,7 @@ func (h *headServer) ServeHTTP(w http.ResponseWriter, r *http.Request) {
 
 func TestCheck(t *testing.T) {
 	r := vp.New("C03", "exploration",
-		"publisher side: every root of a 10-CID alphabet (v0, v1 x 3 codecs x 3 hash functions) x 6 topics (none, ascii, unicode, 256, 1000 and 6600 bytes) x key types: the real Publisher's /head answer is validated by the reference and must be accepted, with the same CID and signer, by the library's own head.Decode / Validate; one publisher taken through every ordered pair of roots (root, other root, first root again), the head verified after every change. Client side: for each of a corpus of valid encoded heads (key types x topics) served verbatim to the real Syncer.GetHead (libp2p-HTTP discovery and plain HTTP): every single-byte substitution, every truncation, and field-level alterations (CID replaced, topic added/removed/changed, key of another identity of the same and another type, signature of another head, key+signature swapped between two valid heads, re-signed by another identity, empty key, empty signature); every field-level alteration served cold (fresh Syncer) and after each of 5 histories of valid heads on a reused Syncer ([valid], [other root], [valid, other], [other, valid], [valid, valid]), each altered head served up to 3 times in a row, followed by both valid heads again; every byte-level alteration right after the valid head on a reused Syncer (every 8th also cold); every alteration class also through Subscriber.SyncAdChain, cold and after a healthy sync with a head query (altered head derived from the head served before, and from the current one), with the publisher named in the ID field of the AddrInfo and named only by a /p2p component of its addresses. Non-trivial: every altered head. Distinct = distinct (head, alteration).",
+		"publisher side: every root of a 10-CID alphabet (v0, v1 x 3 codecs x 3 hash functions) x 10 topics (none, ascii, unicode, 256, 1000 and 6600 bytes, ending in '/', only '/', padded with spaces, mixed case) x key types: the real Publisher's /head answer is validated by the reference and must be accepted, with the same CID and signer, by the library's own head.Decode / Validate; one publisher taken through every ordered pair of roots (root, other root, first root again), the head verified after every change. Client side: for each of a corpus of valid encoded heads (key types x topics) served verbatim to the real Syncer.GetHead (libp2p-HTTP discovery and plain HTTP): every single-byte substitution, every truncation, and field-level alterations (CID replaced, topic added/removed/changed/given a leading or trailing slash, space or NUL/upper-cased/shortened by a character, key of another identity of the same and another type, signature of another head, key+signature swapped between two valid heads, re-signed by another identity, empty key, empty signature); every field-level alteration served cold (fresh Syncer) and after each of 5 histories of valid heads on a reused Syncer ([valid], [other root], [valid, other], [other, valid], [valid, valid]), each altered head served up to 3 times in a row, followed by both valid heads again; every byte-level alteration right after the valid head on a reused Syncer (every 8th also cold); every alteration class also through Subscriber.SyncAdChain, cold and after a healthy sync with a head query (altered head derived from the head served before, and from the current one), with the publisher named in the ID field of the AddrInfo and named only by a /p2p component of its addresses. Non-trivial: every altered head. Distinct = distinct (head, alteration).",
 		"reference validator (generic DAG-JSON decode + libp2p crypto) is the oracle; an altered encoding is required to be rejected only when the reference rejects it (byte changes that alter no value are not alterations)",
 		"announce-triggered syncs do not query the head and are out of this property's reach",
 		"ECDSA signatures are randomised by the signer (libp2p/crypto), so the encoded ECDSA head, and with it the number of byte positions enumerated, varies by a few bytes between runs; every other fixture is deterministic",
@@ -338,6 +339,33 @@ func fieldAlterations2(kt string, topic string, root, otherRoot cid.Cid) (valid,
 		tp2 := ""
 		a.Topic = &tp2
 		add("topic-emptied", a)
+	}
+	// topics that a "canonicalising" reader would take for the signed one
+	variants := map[string]string{
+		"topic-with-trailing-slash":       topic + "/",
+		"topic-with-two-trailing-slashes": topic + "//",
+		"topic-with-trailing-space":       topic + " ",
+		"topic-with-leading-slash":        "/" + topic,
+		"topic-with-leading-space":        " " + topic,
+		"topic-upper-cased":               strings.ToUpper(topic),
+		"topic-with-trailing-nul":         topic + "\x00",
+	}
+	if len(topic) > 1 {
+		variants["topic-without-its-last-character"] = topic[:len(topic)-1]
+		variants["topic-without-its-first-character"] = topic[1:]
+	}
+	vnames := make([]string, 0, len(variants))
+	for n := range variants {
+		vnames = append(vnames, n)
+	}
+	sort.Strings(vnames)
+	for _, n := range vnames {
+		if v := variants[n]; v != topic {
+			v := v
+			a = clone(good)
+			a.Topic = &v
+			add(n, a)
+		}
 	}
 	a = clone(good)
 	a.Pubkey, _ = ic.MarshalPublicKey(same.Priv.GetPublic())
